@@ -810,6 +810,11 @@ class Interp(object):
         k0 = base.pos
         k = smt.fresh_int('k')
         pre_out = ctx.out
+        if spec.invariant is not None:
+            # hybrid rule: carried state pinned by an invariant (a function of the position), emission stated per iteration
+            st0 = LoopState(self, env, SInt(k0))
+            st0.k0 = SInt(k0)
+            ctx.oblige('%s: carried-state invariant on entry' % label, spec.invariant(st0), self.where(node), 'inv-entry')
         if getattr(base, 'table', None) is not None and getattr(self, 'check_pulls', True):
             ctx.oblige('%s: before the first data row is requested at most the header row has been pulled' % label,
                        k0 <= 1, self.where(node), 'pull')
@@ -822,6 +827,10 @@ class Interp(object):
         self.havoc(node, env, spec)
         ctx.assume(z3.And(k0 <= k, k <= base.n))
         base.pos = k
+        if spec.invariant is not None:
+            sti = LoopState(self, env, SInt(k))
+            sti.k0 = SInt(k0)
+            ctx.assume(spec.invariant(sti))
         if ctx.branch(k < base.n, 'loop continues'):
             dout = Seq(smt.fresh_arr('dout'), z3.IntVal(0), 'list', 'Ghost')
             ctx.out = dout
@@ -839,6 +848,10 @@ class Interp(object):
             except _Break:
                 raise Unsupported('break inside a loop verified by the stateless-body rule at %s' % self.where(node))
             spec.delta(st, x, dout)
+            if spec.invariant is not None:
+                st2 = LoopState(self, env, SInt(base.pos))
+                st2.k0 = SInt(k0)
+                ctx.oblige('%s: carried-state invariant preserved' % label, spec.invariant(st2), self.where(node), 'inv-step')
             # C02 (laziness): one iteration pulls exactly its own row -- no read-ahead, no materialisation
             if getattr(self, 'check_pulls', True):
                 ctx.oblige('%s: an iteration pulls no source row besides its own (no read-ahead)' % label,
